@@ -410,7 +410,14 @@ class ConnectionState:
             func: _CommandFunc = getattr(self, func_name)
         except AttributeError:
             return ResponseNo(cmd.tag, cmd.command + b': Not Implemented')
-        response, selected = await func(cmd)
+        try:
+            response, selected = await func(cmd)
+        except Exception:
+            if self._selected is not None:
+                # what the failed command asked to be kept quiet must not
+                # apply to the next one
+                self._selected.unsilence()
+            raise
         if selected is not None:
             self._selected, untagged = selected.fork(cmd)
             response.add_untagged(*untagged)
